@@ -91,6 +91,52 @@ def cases(draw):
     return {"mode": mode, "recipe": root, "supplied": supplied}
 
 
+@st.composite
+def shared_doc_cases(draw):
+    """A defaulted schema in `definitions`, referenced from 2-3 properties of one object (all references
+    share one dict after materialize): every referencing property must receive the default."""
+    t = draw(st.sampled_from([["string", "null"], ["integer", "string"], "string", ["string"], "integer",
+                              ["number", "boolean", "null"]]))
+    default = draw(st.sampled_from(["nick", "", 0, 5, None, False, "x"]))
+    shared = {"type": t, "default": default}
+    if draw(st.booleans()):
+        shared = {"anyOf": [{"type": "string"}, {"type": "integer"}], "default": default}
+    names = draw(st.lists(st.sampled_from(["a", "b", "class", "x1"]), min_size=2, max_size=3, unique=True))
+    doc = {"type": "object", "title": "Root", "properties": {n: {"$ref": "#/definitions/shared"} for n in names},
+           "definitions": {"shared": shared}}
+    return {"mode": "shared-doc", "document": doc, "names": names, "default": default}
+
+
+def shared_doc_predicate(case, stats):
+    from vlib import docs
+    from statham.schema.exceptions import SchemaParseError
+    from statham.schema.parser import parse
+
+    try:
+        root = parse(docs.materialized({"a.json": copy.deepcopy(case["document"])}, "a.json"))[0]
+    except SchemaParseError as exc:
+        return [{"sub": "parse", "kind": "parse-refused:" + type(exc).__name__}]
+    fails = []
+    got = observe.verdict(root, {})
+    stats.case(canon(case["document"]), True, ["shared-doc", "refs:%d" % len(case["names"])],
+               sample={"document": case["document"]})
+    if got[0] != "ok":
+        return [{"sub": "accept", "kind": "rejects-valid-data", "data": {}, "detail": list(map(str, got))}]
+    by_source = {(p.source if p.source is not None else n): n for n, p in root.properties.items()}
+    for name in case["names"]:
+        attr = by_source.get(name)
+        element = root.properties[attr].element
+        declared = getattr(element, "default", NotPassed())
+        have = getattr(got[1], attr)
+        exp = expect_default(element, case["default"])
+        if isinstance(have, NotPassed) or isinstance(declared, NotPassed):
+            fails.append({"sub": "omitted", "kind": "omitted-default-not-applied", "property": name,
+                          "default": case["default"], "element": repr(element)[:200]})
+        elif exp[0] == "converted" and not observe.plain_eq(observe.plain(have), exp[1]):
+            fails.append({"sub": "omitted", "kind": "default-not-converted-as-if-supplied", "property": name})
+    return fails
+
+
 def build(case):
     if case["mode"] == "parsed":
         parsed = observe.safe_parse(R.to_schema(case["recipe"]))
@@ -147,6 +193,8 @@ def check_no_value(obj, label):
 
 
 def predicate(case, stats):
+    if case["mode"] == "shared-doc":
+        return shared_doc_predicate(case, stats)
     model = build(case)
     if model is None:
         stats.case(canon(case), False, ["parse-refused"])
@@ -274,4 +322,5 @@ replay_predicate = predicate
 
 
 def run_shard(ctx, stats):
-    return runner.hyp_run(ctx, stats, cases(), predicate, BUDGET[ctx.tier])
+    strat = st.one_of(cases(), cases(), cases(), cases(), shared_doc_cases())
+    return runner.hyp_run(ctx, stats, strat, predicate, BUDGET[ctx.tier])
